@@ -29,6 +29,26 @@ func verifNameInfoO(name, pre, meta, rel, epoch, arch, override string) *nfpm.In
 	return info
 }
 
+// verifForeignArch sets the architecture override of every format OTHER than
+// the one being built to a value of its own: it must not reach this format.
+func verifForeignArch(info *nfpm.Info, format, foreign string) {
+	if format != "deb" {
+		info.Deb.Arch = foreign
+	}
+	if format != "rpm" {
+		info.RPM.Arch = foreign
+	}
+	if format != "apk" {
+		info.APK.Arch = foreign
+	}
+	if format != "archlinux" {
+		info.ArchLinux.Arch = foreign
+	}
+	if format != "ipk" {
+		info.IPK.Arch = foreign
+	}
+}
+
 func verifOpt(name string, n int, class string) string {
 	if !v.NondetBool(name + ".set") {
 		return ""
@@ -59,10 +79,16 @@ func verifFileName(format string) {
 	p := Packager(format)
 
 	asked := verifNameInfoO(name, pre, meta, rel, epoch, arch, override)
+	fresh := verifNameInfoO(name, pre, meta, rel, epoch, arch, override)
+	if v.NondetBool("foreign.arch.overrides") {
+		// the other formats' overrides are set too (a configuration shared between formats)
+		verifForeignArch(asked, format, "zz")
+		verifForeignArch(fresh, format, "zz")
+	}
 	fname := p.ConventionalFileName(asked)
 	var b1, b2 bytes.Buffer
 	err1 := p.Package(asked, &b1)
-	err2 := p.Package(verifNameInfoO(name, pre, meta, rel, epoch, arch, override), &b2)
+	err2 := p.Package(fresh, &b2)
 	v.Reach("C15.name.ran")
 	v.Observe("fname", fname)
 	v.Assert(err1 == nil && err2 == nil, format+"-packages")
